@@ -26,6 +26,8 @@ def main():
         enumlib.report(rep, enumlib.run(b, "TestVerifEnumC13Client", tier, 60, nshards=4), RULE)
         b = enumlib.build("proxylib-enum", "proxy/lib", files("proxylib"))
         enumlib.report(rep, enumlib.run(b, "TestVerifEnumC13Proxy", tier, 60, nshards=4), RULE)
+        b = enumlib.build("probetest-enum", "probetest", files("probetest"))
+        enumlib.report(rep, enumlib.run(b, "TestVerifEnumC13Probe", tier, 60, nshards=4), RULE)
     except vlib.EngineError as e:
         rep.engine_errors.append(str(e))
     rep.assumptions += ["the callers are driven in-process with scripted rendezvous/transport (as the repository's own tests do), not as separate binaries"]
